@@ -157,7 +157,46 @@ func ruleC05R1(c *Ctx) {
 
 func ruleC05R2(c *Ctx) {
 	fn := c.P.Fn(aCIBFlush)
-	copies := c.callsTo(fn, anchorPred(aCopyLogBuf))
+	// a fresh copy of a slice: the module's CopyLogBuffer / CopySlice, slices.Clone, or append to nil / to a new slice
+	type cpy struct {
+		val, src ssa.Value
+	}
+	var copies []cpy
+	for _, s := range callsIn(fn) {
+		cl, ok := s.(*ssa.Call)
+		if !ok {
+			continue
+		}
+		if f := cl.Common().StaticCallee(); f != nil && len(cl.Common().Args) >= 1 {
+			if isAnchor(f, aCopyLogBuf) || extName(f) == "slices.Clone" || anchorName(f) == "util.CopySlice" {
+				copies = append(copies, cpy{cl, cl.Common().Args[0]})
+			}
+			continue
+		}
+		if isBuiltin(cl, "append") && len(cl.Call.Args) == 2 {
+			fresh := false
+			switch b := strip(cl.Call.Args[0]).(type) {
+			case *ssa.Const:
+				fresh = b.IsNil()
+			case *ssa.MakeSlice:
+				fresh = true
+			}
+			if _, isSlice := cl.Call.Args[1].Type().Underlying().(*types.Slice); fresh && isSlice {
+				copies = append(copies, cpy{cl, cl.Call.Args[1]})
+			}
+		}
+	}
+	appendCheck := func() {
+		ap := c.P.Fn(aCIBAppend)
+		okAp := false
+		for _, s := range storesToField(ap, fCIBPending) {
+			if cl, ok := strip(s.Val).(*ssa.Call); ok && isBuiltin(cl, "append") && fieldOf(cl.Call.Args[0]) == fCIBPending &&
+				mentions(cl.Call.Args[1], func(v ssa.Value) bool { return v == ssa.Value(ap.Params[1]) }) {
+				okAp = true
+			}
+		}
+		c.check(okAp, "C05.R2", ap, "Append appends the record at the end", ap.Pos(), "PendingLogs = append(PendingLogs, record)", "Append does not add the record at the end of PendingLogs")
+	}
 	var sel *ssa.Select
 	var sendVal ssa.Value
 	nSend := 0
@@ -183,8 +222,38 @@ func ruleC05R2(c *Ctx) {
 			sites = append(sites, sendSite{in, s.X, nil})
 		}
 	})
+	if len(copies) == 0 && nSend == 1 && fieldOf(sendVal) == fCIBPending {
+		// hand-over instead of a copy: the pending slice itself is sent and the sink keeps nothing of it — every store to
+		// PendingLogs in Flush installs a new slice (or nil). A retained or recycled buffer would be refilled while the
+		// worker still reads the batch.
+		okNew := true
+		var bad ssa.Instruction
+		sts := storesToField(fn, fCIBPending)
+		for _, st := range sts {
+			switch b := strip(st.Val).(type) {
+			case *ssa.MakeSlice:
+			case *ssa.Const:
+				if !b.IsNil() {
+					okNew, bad = false, st
+				}
+			default:
+				okNew, bad = false, st
+			}
+		}
+		pos := fn.Pos()
+		if bad != nil {
+			pos = bad.Pos()
+		}
+		c.check(okNew && len(sts) > 0, "C05.R2", fn, "the batch sent is not refilled: a copy is sent, or the pending slice is handed over and replaced by a new one", pos,
+			"PendingLogs is sent as it is and replaced by a newly made slice", "PendingLogs is sent as it is, and what replaces it is not a new slice (a retained or recycled buffer is refilled while the worker may still read the batch it was sent as: later records overtake earlier ones)")
+		if len(naturalLoops(fn)) > 0 {
+			c.bad("C05.R2", fn, "one send per flush", fn.Pos(), "Flush contains a loop around its send")
+		}
+		appendCheck()
+		return
+	}
 	if len(copies) != 1 || nSend < 1 {
-		c.bad("C05.R2", fn, "flush sends one copy of the pending records", fn.Pos(), fmt.Sprintf("expected one CopyLogBuffer call and at least one send, found %d / %d", len(copies), nSend))
+		c.bad("C05.R2", fn, "flush sends one copy of the pending records", fn.Pos(), fmt.Sprintf("expected one fresh copy of the pending records (CopyLogBuffer, slices.Clone, append to nil) and at least one send, found %d / %d", len(copies), nSend))
 		return
 	}
 	if nSend > 1 {
@@ -193,7 +262,7 @@ func ruleC05R2(c *Ctx) {
 		okOnce := true
 		why := ""
 		for _, a := range sites {
-			if !sameValue(a.val, copies[0].Value()) {
+			if !sameValue(a.val, copies[0].val) {
 				okOnce, why = false, "a send site sends something other than the one copy"
 			}
 			var start Point
@@ -223,7 +292,7 @@ func ruleC05R2(c *Ctx) {
 		}
 	}
 	cp := copies[0]
-	okVal := sameValue(sendVal, cp.Value()) && fieldOf(cp.Common().Args[0]) == fCIBPending
+	okVal := sameValue(sendVal, cp.val) && fieldOf(cp.src) == fCIBPending
 	pos := fn.Pos()
 	if sel != nil {
 		pos = sel.Pos()
@@ -231,21 +300,13 @@ func ruleC05R2(c *Ctx) {
 	c.check(okVal, "C05.R2", fn, "the value sent is CopyLogBuffer(PendingLogs)", pos, "the send carries the copy of the pending buffer", "the flush does not send a copy of PendingLogs (the reused backing array would be overwritten by later records)")
 	// the slice header copied was loaded before the truncating store (the local keeps the full length)
 	st := storesToField(fn, fCIBPending)
-	if ld, ok := strip(cp.Common().Args[0]).(*ssa.UnOp); ok {
+	if ld, ok := strip(cp.src).(*ssa.UnOp); ok {
 		c.checkOrder("C05.R2", fn, "load of PendingLogs that is copied", map[ssa.Instruction]bool{ld: true}, "truncating store to PendingLogs", instrSet(st))
 	}
 	if len(naturalLoops(fn)) > 0 {
 		c.bad("C05.R2", fn, "one send per flush", fn.Pos(), "Flush contains a loop around its send")
 	}
-	ap := c.P.Fn(aCIBAppend)
-	okAp := false
-	for _, s := range storesToField(ap, fCIBPending) {
-		if cl, ok := strip(s.Val).(*ssa.Call); ok && isBuiltin(cl, "append") && fieldOf(cl.Call.Args[0]) == fCIBPending &&
-			mentions(cl.Call.Args[1], func(v ssa.Value) bool { return v == ssa.Value(ap.Params[1]) }) {
-			okAp = true
-		}
-	}
-	c.check(okAp, "C05.R2", ap, "Append appends the record at the end", ap.Pos(), "PendingLogs = append(PendingLogs, record)", "Append does not add the record at the end of PendingLogs")
+	appendCheck()
 }
 
 func ruleC05R3(c *Ctx) {
